@@ -159,8 +159,21 @@ def cpython_cell(case):
         return "EXC:" + type(e).__name__
 
 
+WIDE = str.maketrans({"a": "\u00e9", "b": "\u2764", "Z": "\U0001f600"})
+
+
+def widen(case):
+    """the same cell with multi-byte characters (1 character each): width and precision count characters, not bytes"""
+    c = dict(case)
+    c["sval"] = case["sval"].translate(WIDE)
+    c["out"] = case["out"].translate(WIDE)
+    c["wide"] = True
+    return c
+
+
 def run_cells(ctx, cases):
     h = ctx.harness("default")
+    cases = cases + [widen(c) for c in cases if c["kind"] in ("str", "chr") and not c.get("wide") and c["sval"].translate(WIDE) != c["sval"]]
     reqs = [{"op": "cfmt_cell", "spec": c["spec"], "kind": c["kind"], "val": c["val"], "sval": c["sval"]} for c in cases]
     resps = h.run(reqs)
     dis = 0
